@@ -69,13 +69,16 @@ def _pseudo(name, *args):
     return ("call", ("unbound", name), tuple(args), ())
 
 
-def is_row_serializer(lam):
+def is_row_serializer(lam, summary=None):
     """``lambda row: SEP.join(<str of every element of row>)`` -> the SEP term, else None."""
     lam = strip(lam)
     if head(lam) != "lam" or len(lam[2]) != 1:
         return None
     row = ("lparam", lam[1], lam[2][0][0])
     body = strip(lam[3])
+    if summary is not None and any(x[0] == "after" for x in walk(body)):
+        from ..rules import canon_folds, close_loops, rewrite, small_rewrites
+        body = strip(rewrite(rewrite(close_loops(summary, body), canon_folds), small_rewrites))
     if not (head(body) == "call" and head(body[1]) == "attr" and body[1][2] == "join" and len(body[2]) == 1 and not body[3]):
         return None
     sep, arg = body[1][1], strip(body[2][0])
@@ -119,33 +122,51 @@ def make_rewrites(summary=None):
                 return t[2][0]
             # X.apply(row serializer, axis=1)  ->  ROWSER(X, SEP)
             if head(f) == "attr" and f[2] == "apply" and len(t[2]) == 1 and is_const(kw.get("axis"), 1) and len(kw) == 1:
-                sep = is_row_serializer(t[2][0])
+                sep = is_row_serializer(t[2][0], getattr(summary, "real", None))
                 if sep is not None and sep_ok(sep, summary):
                     s = strip(sep)
                     return _pseudo("ROWSER", f[1], SEP if is_const(s) else s)
             # X.fillna(<constant>)
-            if head(f) == "attr" and f[2] == "fillna" and len(t[2]) == 1 and not kw and is_const(t[2][0]) and isinstance(t[2][0][2], str):
-                return ("call", f, (FILL,), ())
-            # np.unique(x) without flags = values
-            if name == "numpy.unique" and len(t[2]) == 1 and not kw:
-                return _pseudo("UNIQ_values", t[2][0])
+            if head(f) == "attr" and f[2] == "fillna":
+                v = get_arg(t, 0, "value")
+                if v is not None and len(t[2]) + len(kw) == 1 and is_const(v) and isinstance(v[2], str):
+                    return ("call", f, (FILL,), ())
+            # np.unique(x) without flags = values   (positional or canonical keyword form)
+            if name == "numpy.unique":
+                ar = get_arg(t, 0, "ar")
+                others = {k: v for k, v in kw.items() if k != "ar"}
+                if ar is not None and not others and len(t[2]) <= 1:
+                    return _pseudo("UNIQ_values", ar)
             # np.intersect1d(values, values, assume_unique=True) : the flag is redundant on np.unique outputs
-            if name == "numpy.intersect1d" and len(t[2]) == 2 and is_const(kw.get("assume_unique"), True):
-                if all(head(strip(a)) == "call" and strip(a)[1] == ("unbound", "UNIQ_values") for a in t[2]):
+            if name == "numpy.intersect1d" and is_const(kw.get("assume_unique"), True):
+                a1, a2 = get_arg(t, 0, "ar1"), get_arg(t, 1, "ar2")
+                if a1 is not None and a2 is not None and all(head(strip(a)) == "call" and strip(a)[1] == ("unbound", "UNIQ_values") for a in (a1, a2)):
                     kw2 = tuple((k, v) for k, v in t[3] if k != "assume_unique")
                     return ("call", t[1], t[2], kw2)
         if h in ("item", "sub"):
             base = strip(t[1])
             idx = t[2] if h == "item" else (t[2][2] if is_const(t[2]) and isinstance(t[2][2], int) else None)
-            if isinstance(idx, int) and head(base) == "call" and strip(base[1]) == ("glob", "numpy.unique") and len(base[2]) == 1:
-                kw = dict(base[3])
+            if isinstance(idx, int) and head(base) == "call" and strip(base[1]) == ("glob", "numpy.unique"):
+                ar = get_arg(base, 0, "ar")
+                kw = {k: v for k, v in dict(base[3]).items() if k != "ar"}
                 flags = ["return_index", "return_inverse", "return_counts"]
-                if all(k in flags for k in kw) and all(is_const(v) and isinstance(v[2], bool) for v in kw.values()):
+                if ar is not None and len(base[2]) <= 1 and all(k in flags for k in kw) and all(is_const(v) and isinstance(v[2], bool) for v in kw.values()):
                     slots = ["values"] + [fl[7:] for fl in flags if kw.get(fl, ("const", "bool", False))[2]]
                     if len(slots) > 1 and 0 <= idx < len(slots):
-                        return _pseudo("UNIQ_" + slots[idx], base[2][0])
+                        return _pseudo("UNIQ_" + slots[idx], ar)
         return t
     return [rw]
+
+
+def zip_pair(t):
+    """zip(x[0], x[1]) for an unpacked pair is zip(*x)."""
+    if head(t) == "call" and strip(t[1]) == ("glob", "builtins.zip") and len(t[2]) == 2 and not t[3]:
+        a, b = strip(t[2][0]), strip(t[2][1])
+        if head(a) == "item" and head(b) == "item" and a[1] == b[1] and (a[2], b[2]) == (0, 1):
+            return ("call", t[1], (("star", a[1]),), ())
+        if head(a) == "sub" and head(b) == "sub" and a[1] == b[1] and is_const(a[2], 0) and is_const(b[2], 1):
+            return ("call", t[1], (("star", a[1]),), ())
+    return t
 
 
 def is_vec(t):
@@ -168,7 +189,8 @@ class PcEquiv(Equiv):
     """RF equality with the library model  sum(multiplicities of x) == len(x)."""
 
     def __init__(self, vec, summary=None):
-        super().__init__(vec=vec, rewrites=make_rewrites(summary),
+        from ..rules import std_rewrites
+        super().__init__(vec=vec, rewrites=make_rewrites(summary) + std_rewrites(ident=IDENT) + make_rewrites(summary) + [zip_pair],
                          modelled={"numpy.unique", "numpy.intersect1d", "pandas.DataFrame", "builtins.isinstance", "builtins.zip", "builtins.str"})
 
     def make_ctx(self):
@@ -198,14 +220,17 @@ def check_against_spec(r, rule, fname, what, vec=is_vec, modname="pyrepseq.stats
     spec = subst(sp.ret, canon_params(sp))
     eq = PcEquiv(vec, s)
     # separators given by a parameter: canonical positional names on both sides
-    eq.rewrites = make_rewrites(_canon_summary(s))
+    from ..rules import std_rewrites
+    eq.rewrites = make_rewrites(_canon_summary(s)) + std_rewrites(ident=IDENT) + make_rewrites(_canon_summary(s)) + [zip_pair]
+    eq.transparent = {M + "stdpc_n"} if fname in ("stdpc", "stdpc_n") else ({"pyrepseq.util.convert_tuple_to_dataframe_if_necessary"} if fname == "pc" else set())
     return check_equiv(r.rep, rule, q, what, code, spec, where_of(r.P, s.func, s.func.node), eq=eq, key=key)
 
 
 class _CS:
-    def __init__(self, params):
+    def __init__(self, params, real=None):
         self.params = params
+        self.real = real
 
 
 def _canon_summary(s):
-    return _CS([(f"#{i}", p[1], p[2]) for i, p in enumerate(s.params)])
+    return _CS([(f"#{i}", p[1], p[2]) for i, p in enumerate(s.params)], real=s)
